@@ -116,6 +116,21 @@ Proof.
     eapply Forall2_map2; [apply Forall2_combine; [apply IHn1 | apply IHn2]; eauto|].
     intros [a1 a2] [b1 b2] [H1 H2]. simpl in *. rewrite O1 in H1. rewrite O2 in H2. simpl in *.
     subst. reflexivity.
+  - (* BDifference *) destruct W as [W1 W2].
+    eapply Forall2_map2; [apply Forall2_combine; [apply IHn1 | apply IHn2]; eauto|].
+    intros [a1 a2] [b1 b2] [H1 H2]. simpl in *.
+    assert (E : diff a2 a1 = diff b2 a1).
+    { unfold diff. apply filter_ext. intros p. rewrite (memb_perm p a2 b2); [reflexivity|].
+      eapply equiv_perm. exact H2. }
+    rewrite E. apply equiv_congr; [intros; apply filter_perm; assumption | exact H1].
+  - (* BCrossNL *) destruct W as [W1 W2].
+    eapply Forall2_map2; [apply Forall2_combine; [apply IHn1 | apply IHn2]; eauto|].
+    intros [a1 a2] [b1 b2] [H1 H2]. simpl in *.
+    destruct (bord n1) eqn:O1; destruct (bord n2) eqn:O2; simpl in *; subst;
+      try reflexivity; apply pairs_perm; auto; try reflexivity.
+  - (* BConst *) induction bs; simpl; constructor; auto. reflexivity.
+  - (* BFirstTick *) destruct bs as [|e r]; simpl; constructor; [reflexivity|].
+    induction r; simpl; constructor; auto. reflexivity.
 Qed.
 
 (* the arrival oracle that changes nothing gives back the specification *)
